@@ -191,6 +191,31 @@ reg("C14", "exploration",
     "Trees beyond 3 product nodes rely on the small-scope hypothesis (rewrite rules fire on "
     "operand shape); expressions with norms compared numerically at 40 digits.", "DESIGN.md 3/C14")
 
+reg("C15", "exploration",
+    "exhaustive enumeration of ordered pairs and triples of systems x lattice points, judged "
+    "against an own Cartesian position map and local frames",
+    "For all 6 ordered pairs (plus same-type pairs) and 6 ordered triples of the Cartesian, "
+    "cylindrical and spherical systems and every lattice point of each domain: scalar round "
+    "trips, scalars against the geometry, orthonormality / determinant +1 / inverse / agreement "
+    "with the geometric rotation of the base-vector maps, direct conversion against the one via "
+    "the third system, convert_point and convert_vector (4 vectors per point), Lame coefficients "
+    "and Jacobian against the position derivatives.",
+    "Finite lattice inside each domain; 40-digit comparison; every table entry is exercised by "
+    "several lattice points in all four quadrants.", "DESIGN.md 3/C15")
+
+reg("C16", "exploration",
+    "exhaustive enumeration of linear combinations x unknown x flag x input form, equivalence "
+    "decided by component expansion",
+    "All linear combinations of 1..2 terms over 8 coefficients x 7 vector terms and 3 terms over a "
+    "reduced alphabet are rearranged for each of a, b, c and the absent d, with and without factor "
+    "reduction, as expression and as equation; the difference of the returned sides must equal "
+    "the original expression divided by the coefficient of a term in the unknown (or +-the "
+    "expression), the right-hand side must solve the equation when the unknown occurs once, absent "
+    "unknowns / non-vectors / vectors occurring only inside products must be refused.",
+    "R^3 component expansion with exact normal form; admissible divisors include the coefficients "
+    "of the terms after expansion, since the solver splits (k+1)*b into k*b and b.",
+    "DESIGN.md 3/C16")
+
 
 def build() -> dict:
     props = [json.loads(l)["id"] for l in open(os.path.join(ROOT, "properties.jsonl"))]
